@@ -79,10 +79,10 @@ Fold(c, ev, k, C) ==
            M == UNION {{T \in Succ(c, S, e) : EventOk(S, T, e) /\ CallsOk(c, S, T, e)} : S \in C}
            nocall == \E S \in C : \E T \in Succ(c, S, e) : EventOk(S, T, e)
        IN IF M # {} THEN Fold(c, ev, k + 1, M)
-          ELSE LET z == \E S \in C : \E T \in Succ(c, S, e) : EventOkButZombies(S, T, e)
+          ELSE LET z == \E S \in C : \E T \in Succ(c, S, e) : EventOkButZombies(S, T, e) /\ CallsOk(c, S, T, e)
                IN [ok |-> FALSE, at |-> k, C |-> C,
-                   why |-> IF z THEN "a signal changed the state of a terminated process"
-                           ELSE IF nocall THEN "the system calls of " \o e.w \o " are not those of the protocol"
+                   why |-> IF nocall THEN "the system calls of " \o e.w \o " are not those of the protocol"
+                           ELSE IF z THEN "a signal changed the state of a terminated process"
                            ELSE IF e.w = "env" THEN "the effect of a terminal signal is not the specified one"
                            ELSE "step of " \o e.w \o " is not a behaviour of ProcGroups"]
 
